@@ -87,6 +87,7 @@ package backends
 
 //@ func (*GCSCache).Set(gcs, ctx, path, key, content) (err)
 //@   ensures [success_requires_committed_object] err == nil ==> has(gcsWriterClosedOK, ref(wc)) && stream[ref(wc)] == old(stream[ref(wc)]) + rcontent[ref(content)]
+//@   before_call Close#1 [commit_only_after_complete_copy] stream[ref(wc)] == old(stream[ref(wc)]) + rcontent[ref(content)]
 //@   before_call Bucket#1 [same_bucket] arg1 == gcs.bucketName
 //@   before_call Object#1 [same_object] arg1 == ite(gcs.prefix == "", gcs.workspacePrefix, gcs.prefix + "/" + gcs.workspacePrefix) + "/" + trimChars(path, "/") + "/" + trimChars(key, "/")
 
